@@ -31,6 +31,28 @@ def finishTask (l : Led.St) (task who : String) : Led.St :=
                          store := { l.store with status := AMap.put l.store.status who ⟨none, false⟩ } }
   | _ => l
 
+/-- NtfnsHandler.handle over the next notifications, up to the block at height `target` -/
+def catchUpTo (l : Led.St) (target : Nat) : Led.St :=
+  l.node.chain.foldl (fun l b =>
+    if b.height > l.store.syncedTo && b.height ≤ target then (Led.step l ["notify", b.id]).1 else l) l
+
+/-- the experiment `live` of the harness (eng_proto_live.go): `nb` block notifications queued, one task of the
+    given kind queued, every database step succeeding, NO stop request. Is a state reachable in which neither
+    the follower nor the worker can move although work is left? (Exploration of the protocol model; the
+    liveness theorems MW.Props.C20.progress say what happens on the way.) -/
+def canStall (sh : Shape) (c : Cfg) (task : String) (nb : Nat) (faults : Bool) : Bool :=
+  let allow (l : Label) (_ : MW.Model.Proto.St) : Bool :=
+    match l with
+    | .eStop | .eBlk | .eTx | .aCheck | .aPush | .aPushDrop => false
+    | .wTakeImp => task == "import"
+    | .wTakeRem => task == "remove"
+    | .wTakeSkip => false
+    | .wCommitI o => o == .fin || (faults && o == .errRetry)
+    | .wCommitR o => o != .err || faults
+    | _ => true
+  let s0 : MW.Model.Proto.St := { nt := if task = "none" then 0 else 1, nb := nb }
+  !(explore sh c allow 4000 [s0] [] []).isEmpty
+
 def placeKind (place : String) : Option (String × Nat) :=
   match place.splitOn ":" with
   | ["now"] => some ("now", 0)
@@ -74,6 +96,37 @@ def step (st : St) (args : List String) : St × String :=
       let led := bs.zipIdx.foldl (fun l (bi : String × Nat) =>
         finishTask (catchUp (Led.step l ["submit", bi.1]).1) "import" s!"I{bi.2 + 1}") st.led
       ({ st with led := led }, "stopped\tstopped")
+  | ["livef", task, who, ns, ks] =>
+    if !st.started then (st, "bad-op") else
+    let known := match task with
+      | "remove" => st.led.wallets.contains who
+      | "import" => st.ext.contains who
+      | _ => false
+    match known, ns.toNat?, ks.toNat? with
+    | true, some n, some k =>
+      let pending := st.led.node.chain.length - 1 - st.led.store.syncedTo
+      if n < 1 || n > pending || k < 1 || k > 3 then (st, "bad-op") else
+      if canStall Shape.current (Cfg.current st.led.wallets.length) task n true then
+        ({ st with dead := true }, s!"TIMEOUT\tdone {k}")
+      else
+        ({ st with led := finishTask (catchUpTo st.led (st.led.store.syncedTo + n)) task who }, s!"done {k}\tdone {k}")
+    | _, _, _ => (st, "bad-op")
+  | ["live", task, who, ns] =>
+    if !st.started then (st, "bad-op") else
+    let known := match task with
+      | "remove" => st.led.wallets.contains who
+      | "import" => st.ext.contains who
+      | "none" => true
+      | _ => false
+    match known, ns.toNat? with
+    | true, some n =>
+      let pending := st.led.node.chain.length - 1 - st.led.store.syncedTo
+      if n < 1 || n > pending then (st, "bad-op") else
+      if canStall Shape.current (Cfg.current st.led.wallets.length) task n false then
+        ({ st with dead := true }, "TIMEOUT\tdone")
+      else
+        ({ st with led := finishTask (catchUpTo st.led (st.led.store.syncedTo + n)) task who }, "done\tdone")
+    | _, _ => (st, "bad-op")
   | ["stopat", task, who, place] =>
     if !st.started then (st, "bad-op") else
     let known := match task with
